@@ -1,5 +1,6 @@
 import CTV.Model.Tbs
 import CTV.Lemmas.Tlv
+import CTV.Lemmas.RfcWire
 /-!
 Round-trip lemmas for the TBSCertificate model: `parseTbs` and `marshalTbs` are inverse on canonical
 TBSCertificates; the list surgery of `removeExtension` / `BuildPrecertTBS`; preservation of `wf`.
@@ -733,5 +734,16 @@ theorem sctItemsOfVals_map (l : List Bytes) : sctItemsOfVals (l.map CtWire.seria
 /-- reading the Go value back as a list inverts `CtWire.sctListVal` -/
 theorem sctListOfVal_sctListVal (l : List Bytes) : sctListOfVal (CtWire.sctListVal l) = some l := by
   simp [sctListOfVal, CtWire.sctListVal, sctItemsOfVals_map]
+
+theorem concatAll_empty_item (l : List Bytes) (h : [] ∈ l) : Rfc.concatAll Rfc.serializedSCT l = none := by
+  induction l with
+  | nil => simp at h
+  | cons s rest ih =>
+    simp only [Rfc.concatAll]
+    simp at h
+    rcases h with h | h
+    · subst h; simp [Rfc.serializedSCT, Rfc.varVector]
+    · rw [ih h]
+      cases Rfc.serializedSCT s <;> rfl
 
 end CTV.Tbs
